@@ -19,7 +19,7 @@ ID = "C07"
 MANIFEST = {
     "category": "exploration",
     "text": "Generated-input search: valid, format-constraint-dense expressions (juxtapositions on either side of atoms and of bracketed compositions, >= 3 fc keys under different operators) x rc assignments (all 3^k for k<=3, else 10 sampled) x all 2^n truth assignments of the fc keys (n<=5). The collected expression must be None or be accepted by the reference recogniser, contain only U/O/X compositions over fc keys of the source, and - evaluated by the real format_constraint_evaluation - equal the direct reading computed on the generating AST (attached constraint binding iff its operand is FULFILLED or a hint; operands contributing nothing are omitted; nothing counts as fulfilled). One slice is enumerated completely: every valid expression with at least one format constraint and up to 3 (thorough: 4) atoms over the keys [1], [2], [501], [901], [902], under all rc and truth assignments.",
-    "note": "Trusted: ref.fc_direct / ref.state (reference reading), ref.accepts_condition, the generator. The string round trip through the real parser and FormatConstraintTransformer is part of what is tested (C08 checks that evaluator separately). Bounded: <= 12/24 atoms, <= 5 fc keys.",
+    "note": "Trusted: ref.fc_direct / ref.state (reference reading), ref.accepts_condition, the generator. The string round trip through the real parser and FormatConstraintTransformer is part of what is tested (C08 checks that evaluator separately). Bounded: <= 12/24 atoms, <= 5 fc keys. Process configuration by shard (vlib/sut.py; recorded in replay files): plain / parse caches preheated beyond their size / warnings attributed to ahbicht raised as errors / logging fully enabled with every record rendered.",
     "technique": "property-based testing against a reference interpretation, exhaustive over truth assignments per expression",
 }
 LEVEL = "exploration"
